@@ -542,6 +542,16 @@ pub fn inject_accept_error(port: u16, errno: i32) {
     }
 }
 
+/// Wall-clock jump (CLOCK_REALTIME only).
+pub fn step_wall_clock(delta_ms: i64) {
+    {
+        let mut w = world();
+        w.log("clock_step", 0, 0, delta_ms.to_string());
+        w.count("clock_step");
+    }
+    clock::step_wall_clock(delta_ms);
+}
+
 pub fn set_unreachable(ip: IpAddr, on: bool) {
     let mut w = world();
     if on {
